@@ -151,3 +151,40 @@ Theorem C01_log_two_sources : forall fuel maxd ignore_unknown (sr1 sr2 : source)
   exists a s1 s2, crun p (set_chunk (reader_init sr1) c1) = CDone a s1 /\ crun p (set_chunk (reader_init sr2) c2) = CDone a s2.
 Proof. exact parse_log_two_sources. Qed.
 Print Assumptions C01_log_two_sources.
+
+(* ---------- the AIGER parsers (ascii aag and binary aig) ---------- *)
+From Flussab Require Import Aiger AigerProofs.
+
+(* Answer-insensitivity of the whole AIGER parsers (header, every item of every section, symbols, comment,
+   final outcome with its error location or I/O error), for every literal type (maxc = Lit::MAX_CODE):
+   any two admissible abstract runs on views with the same core agree unless one of them is AStuck. *)
+Theorem C01_aiger_answer_insensitive : forall (fuel : nat) (maxc : N) (lr : lrs),
+  CoreDet fuel (parse_aag fuel maxc lr) /\ CoreDet fuel (parse_aig fuel maxc lr).
+Proof. intros fuel maxc lr. exact (conj (PDet_parse_aag fuel maxc lr) (PDet_parse_aig fuel maxc lr)). Qed.
+Print Assumptions C01_aiger_answer_insensitive.
+
+(* With the simulation: two concrete AIGER parses of the same stream — any two honest sources, schedules,
+   chunk sizes — are matched by admissible abstract runs that agree.  PARTIAL in the same sense as
+   C01_dimacs_two_runs_partial (`agree` holds trivially for an AStuck run). *)
+Theorem C01_aiger_two_runs_partial : forall fuel (binary : bool) maxc (sr1 sr2 : source) (c1 c2 : N),
+  NoLie (events sr1) -> NoLie (events sr2) -> 1 <= c1 -> 1 <= c2 ->
+  stream_of sr1 = stream_of sr2 ->
+  Forall (fun b => b < 256) (fst (stream_of sr1)) -> (length (fst (stream_of sr1)) < fuel)%nat ->
+  let p := (if binary then parse_aig fuel maxc lrs_init else parse_aag fuel maxc lrs_init) in
+  exists r1 r2,
+    refines (crun p (set_chunk (reader_init sr1) c1)) r1 /\
+    refines (crun p (set_chunk (reader_init sr2) c2)) r2 /\
+    agree r1 r2.
+Proof.
+  intros fuel binary maxc sr1 sr2 c1 c2 H1 H2 Hc1 Hc2 Heq Hb Hlen p.
+  set (v := view_init (fst (stream_of sr1)) (snd (stream_of sr1))).
+  destruct (simulation p _ v (Rel_init sr1 c1 H1 Hc1)) as (r1 & Hr1 & Hf1).
+  assert (HR2 : Rel (set_chunk (reader_init sr2) c2) v) by (unfold v; rewrite Heq; apply Rel_init; assumption).
+  destruct (simulation p _ v HR2) as (r2 & Hr2 & Hf2).
+  exists r1, r2. split; [exact Hf1|]. split; [exact Hf2|].
+  assert (Hw : WFV v) by (unfold WFV, v; cbn; lia).
+  destruct binary.
+  - exact (PDet_parse_aig fuel maxc lrs_init v v r1 r2 eq_refl Hw Hw Hb Hlen Hr1 Hr2).
+  - exact (PDet_parse_aag fuel maxc lrs_init v v r1 r2 eq_refl Hw Hw Hb Hlen Hr1 Hr2).
+Qed.
+Print Assumptions C01_aiger_two_runs_partial.
